@@ -67,7 +67,7 @@ func c13Real(raw json.RawMessage) any {
 	deadline := time.Now().Add(40 * time.Second)
 	// a wedged run is evidence enough: stop the case there
 	wedged := func() bool {
-		if n := len(out.Runs); n > 0 && (out.Runs[n-1].Deadlock || out.Runs[n-1].Stuck != "") {
+		if n := len(out.Runs); n > 0 && (out.Runs[n-1].Deadlock || out.Runs[n-1].Stuck != "" || out.Runs[n-1].Starved != "") {
 			return true
 		}
 		return false
@@ -309,7 +309,12 @@ func c13OracleJudge(args, real, _ json.RawMessage) *core.Verdict {
 			c13Ctx.Count("schedule-space-exhausted:" + a.Mode)
 		}
 	}
+	starved := 0
 	for _, r := range o.Runs {
+		if r.Starved != "" {
+			starved++
+			continue
+		}
 		vs := c13Judge(a.c13Graph, r)
 		if len(vs) > 0 && (best == nil || c13KeyRank(vs[0].key) < c13KeyRank(best.key)) {
 			b := vs[0]
@@ -318,6 +323,12 @@ func c13OracleJudge(args, real, _ json.RawMessage) *core.Verdict {
 	}
 	if best != nil {
 		return core.Fail(best.key, best.what)
+	}
+	if starved > 0 {
+		if c13Ctx != nil {
+			c13Ctx.Count("unjudgeable:starved-run")
+		}
+		return core.Skip("run not judged: the machine was too loaded to reach quiescence")
 	}
 	return nil
 }
@@ -356,6 +367,14 @@ func init() {
 			for _, r := range o.Runs {
 				if r.Stuck != "" || r.Deadlock {
 					return core.Disagree("real run stuck/deadlocked (see trav.oracle): " + r.Stuck)
+				}
+			}
+			for _, r := range o.Runs {
+				if r.Starved != "" {
+					if c13Ctx != nil {
+						c13Ctx.Count("unjudgeable:starved-run")
+					}
+					return core.Skip("a run could not be brought to quiescence within 10 s although every goroutine was runnable (overloaded machine): " + r.Starved)
 				}
 			}
 			return nil
